@@ -169,11 +169,13 @@ pub fn run_l1(prog: &Program, cfg: RunCfg) -> Trace {
     // weak handles kept at setup and give the clients another chance to finish
     if clients_outcome != Outcome::Until && clients_outcome != Outcome::StepCap {
         log::log(K::Phase("reap"));
-        for (tag, w) in reaper.iter_mut() {
+        let mut extra = std::mem::take(&mut *env.reaper.lock().unwrap_or_else(|e| e.into_inner()));
+        for (tag, w) in reaper.iter_mut().chain(extra.iter_mut()) {
             log::log(K::Effect { msg: 0, actor: u32::MAX, step: 0, what: "reap_begin", arg: *tag as u64, ok: true });
             let ok = w.try_stop().is_ok();
             log::log(K::Effect { msg: 0, actor: u32::MAX, step: 0, what: "reap_stop", arg: *tag as u64, ok });
         }
+        drop(extra);
         let e3 = Arc::clone(&env);
         let now = exec.sh.now();
         let o = exec.run(now + horizon, cfg.max_steps, move || e3.all_done());
@@ -183,6 +185,7 @@ pub fn run_l1(prog: &Program, cfg: RunCfg) -> Trace {
         }));
     }
     drop(reaper);
+    env.reaper.lock().unwrap_or_else(|e| e.into_inner()).clear();
     // settle: let actors drain (bounded by the horizon)
     let now = exec.sh.now();
     let settle_outcome = exec.run(now + horizon, cfg.max_steps, || false);
@@ -344,7 +347,8 @@ pub fn run_mt(prog: &Program, cfg: RunCfg) -> Trace {
             reaped = true;
             log::log(K::Phase("reap"));
             let _g = rt.enter();
-            for (tag, w) in reaper.lock().unwrap_or_else(|e| e.into_inner()).iter_mut() {
+            let mut extra = std::mem::take(&mut *env.reaper.lock().unwrap_or_else(|e| e.into_inner()));
+            for (tag, w) in reaper.lock().unwrap_or_else(|e| e.into_inner()).iter_mut().chain(extra.iter_mut()) {
                 log::log(K::Effect { msg: 0, actor: u32::MAX, step: 0, what: "reap_begin", arg: *tag as u64, ok: true });
                 let ok = w.try_stop().is_ok();
                 log::log(K::Effect { msg: 0, actor: u32::MAX, step: 0, what: "reap_stop", arg: *tag as u64, ok });
@@ -363,6 +367,7 @@ pub fn run_mt(prog: &Program, cfg: RunCfg) -> Trace {
         }
     }
     reaper.lock().unwrap_or_else(|e| e.into_inner()).clear();
+    env.reaper.lock().unwrap_or_else(|e| e.into_inner()).clear();
     let quiet = |ms: u64, max_ms: u64| {
         let t = Instant::now();
         let mut last = log::NONTICK_EVENTS.load(Ordering::Relaxed);
